@@ -86,7 +86,11 @@ impl LangInterpreter for Italian {
                         return Err(Error::Overlap);
                     }
                     b.put(&ds)?;
-                    let marker = self.get_morph_marker(num_func);
+                    let mut marker = self.get_morph_marker(num_func);
+                    if !marker.is_ordinal() {
+                        // irregular stems ("centodecimo") are only recognisable on the last piece
+                        marker = ds.marker;
+                    }
                     if marker.is_ordinal() {
                         b.marker = marker;
                         b.freeze()
